@@ -11,6 +11,14 @@ Open Scope Z_scope.
 Inductive exn := IndexError | TypeError | ValueError | OverflowError | ZeroDivisionError
                | RuntimeError | KeyError | ArgumentError | AssertionError | Unmodelled | OutOfFuel.
 
+Definition exn_eqb (a b : exn) : bool :=
+  match a, b with
+  | IndexError, IndexError | TypeError, TypeError | ValueError, ValueError | OverflowError, OverflowError
+  | ZeroDivisionError, ZeroDivisionError | RuntimeError, RuntimeError | KeyError, KeyError
+  | ArgumentError, ArgumentError | AssertionError, AssertionError | Unmodelled, Unmodelled | OutOfFuel, OutOfFuel => true
+  | _, _ => false
+  end.
+
 Inductive val : Type :=
 | VNone
 | VBool (b : bool)
@@ -28,7 +36,7 @@ Inductive unop := Not | USub | Invert.
 
 Inductive builtin :=
 | BLen | BOrd | BChr | BRange | BDivmod | BHex | BBin | BFromHex
-| BFromBytesBig | BFromBytesLittle | BAny | BAll | BBytes | BInt | BStr | BMin | BMax | BBool | BListOf | BIsInt | BIntDiv | BChunks.
+| BFromBytesBig | BFromBytesLittle | BAny | BAll | BBytes | BInt | BStr | BMin | BMax | BBool | BListOf | BIsInt | BIntDiv | BChunks | BIsInstanceInt.
 
 Inductive meth :=
 | MLower | MUpper | MFind | MRfind | MIndex | MJoin | MToBytesBig | MToBytesLittle
@@ -48,6 +56,7 @@ Inductive expr : Type :=
 | ETuple (l : exprs)
 | EIndex (a i : expr)
 | EField (a : expr) (i : nat) (name : string)         (* self.name, the i-th field *)
+| EObj (cls : string) (fields : exprs)                 (* the object under construction in __init__ / a finished instance, as a value *)
 | ESlice (a : expr) (lo hi : option expr)
 | ECall (f : string) (args : exprs)                    (* a translated or external function *)
 | ECallStar (f : string) (star : expr) (args : exprs)  (* call with the items of star spliced in front of args *)
@@ -70,6 +79,7 @@ Inductive stmt : Type :=
 | SWhile (c : expr) (body : block)
 | SReturn (e : expr)
 | SRaise (e : exn)
+| STry (body : block) (z : exn) (handler : block)      (* try: body except z: handler -- body is ONE return/expression statement (no binding survives it) *)
 | SBreak
 | SPass
 with block : Type :=
